@@ -185,6 +185,16 @@ row("class_basic", {"decl": "class {n}_C", "declarations": [
         {"decl": "int add(int a, int b = 2) const"},
         {"decl": "static int count()"},
     ]}, langs=CXX, wraps=ALLW, doc="docs/classes.rst; classes.yaml Class1")
+# many overloads with long (but legal, < 40 character) names: the type-bound generic line lists every specific
+row("class_long_overloads", {"decl": "class {n}_SB", "declarations": [
+        {"decl": "{n}_SB()"},
+        {"decl": "void record_calibrated_measurement(int value)"},
+        {"decl": "void record_calibrated_measurement(double value)"},
+        {"decl": "void record_calibrated_measurement(int value, int channel)"},
+        {"decl": "void record_calibrated_measurement(double value, int channel)"},
+        {"decl": "void record_calibrated_measurement(long value, int channel, int flags)"},
+        {"decl": "void record_calibrated_measurement(float value, int channel, int flags, int extra)"},
+    ]}, langs=CXX, wraps=CF, doc="docs/classes.rst, docs/fortran.rst (type-bound generic of overloaded methods)")
 row("class_args", [{"decl": "class {n}_K", "declarations": [
         {"decl": "{n}_K()"},
         {"decl": "~{n}_K() +name(dtor)"},
